@@ -66,6 +66,7 @@ var props = map[string]*Prop{
 		Assumptions: []string{"limits are the documented 512MiB / 64 pids", "over-rejection of a non-escaping destination (e.g. '..foo') is not a violation of the statement"},
 		Bounds:      map[string]string{"quick": "<=3 requests, <=2 mounts", "thorough": "same (space exhausted)"},
 		Units: []Unit{
+			{Name: "cli-sandbox-adapter", Pkg: "internal/cli", Test: "TestVerifC14CLI", Shards: sh(4, 4), TimeoutS: sh(900, 900)},
 			{Name: "spec", Pkg: "internal/sandbox", Test: "TestVerifC14", Shards: sh(8, 16)},
 			{Name: "mountpoints", Pkg: "internal/sandbox", Test: "TestVerifC14MountPoints", Shards: sh(4, 4)},
 		},
